@@ -5,10 +5,6 @@ package lockrec
 
 import (
 	"fmt"
-	"go/ast"
-	"go/parser"
-	"go/token"
-	"path/filepath"
 	"reflect"
 	"sort"
 	"strings"
@@ -43,359 +39,7 @@ func (e SEvent) String() string {
 	return e.name + "(" + strings.Join(e.ops, ",") + ")"
 }
 
-var writerMethods = map[string]bool{"Add": true, "Remove": true, "Clear": true}
 var lockMethods = map[string]bool{"Lock": true, "Unlock": true, "RLock": true, "RUnlock": true}
-
-type methodWalker struct {
-	recv    string            // receiver identifier
-	operand map[string]string // identifier -> "recv" | "arg"
-	alias   map[string]string // local identifier holding a set's map (header or pointer) -> operand
-	events  []SEvent
-	defers  [][]SEvent
-	methods map[string]bool // names of threadSafeSet methods
-	helpers map[string]bool
-	err     error
-	depth   int // nesting depth of branches / loops
-}
-
-func (w *methodWalker) fail(pos token.Pos, format string, a ...any) {
-	if w.err == nil {
-		w.err = fmt.Errorf(format, a...)
-	}
-}
-
-func (w *methodWalker) opOf(e ast.Expr) (string, bool) {
-	switch x := e.(type) {
-	case *ast.Ident:
-		op, ok := w.operand[x.Name]
-		return op, ok
-	case *ast.ParenExpr:
-		return w.opOf(x.X)
-	case *ast.TypeAssertExpr: // other.(*threadSafeSet)
-		return w.opOf(x.X)
-	}
-	return "", false
-}
-
-// is e the `.s` field of an operand (possibly behind & or *)? returns the operand
-func (w *methodWalker) dataOf(e ast.Expr) (string, bool) {
-	switch x := e.(type) {
-	case *ast.SelectorExpr:
-		if x.Sel.Name == "s" {
-			return w.opOf(x.X)
-		}
-	case *ast.UnaryExpr:
-		if x.Op == token.AND {
-			return w.dataOf(x.X)
-		}
-	case *ast.StarExpr:
-		return w.dataOf(x.X)
-	case *ast.ParenExpr:
-		return w.dataOf(x.X)
-	case *ast.Ident:
-		op, ok := w.alias[x.Name]
-		return op, ok
-	}
-	return "", false
-}
-
-func (w *methodWalker) emit(e SEvent) { w.events = append(w.events, e) }
-
-// walk an expression in evaluation order, recording accesses and calls
-func (w *methodWalker) expr(e ast.Expr, write bool) {
-	if e == nil {
-		return
-	}
-	if op, ok := w.dataOf(e); ok {
-		w.emit(SEvent{kind: "access", ops: []string{op}, write: write})
-		return
-	}
-	switch x := e.(type) {
-	case *ast.CallExpr:
-		// lock call, helper call, nested method call, data method call, builtin delete
-		if sel, ok := x.Fun.(*ast.SelectorExpr); ok {
-			if op, ok := w.opOf(sel.X); ok {
-				if lockMethods[sel.Sel.Name] {
-					if w.depth > 0 {
-						w.fail(x.Pos(), "lock call %s inside a branch or loop", sel.Sel.Name)
-					}
-					w.emit(SEvent{kind: "lock", name: sel.Sel.Name, ops: []string{op}})
-					return
-				}
-				if w.methods[sel.Sel.Name] {
-					ops := []string{op}
-					for _, a := range x.Args {
-						if aop, ok := w.opOf(a); ok {
-							ops = append(ops, aop)
-						} else {
-							w.expr(a, false)
-						}
-					}
-					if w.depth > 0 {
-						w.fail(x.Pos(), "nested call %s inside a branch or loop", sel.Sel.Name)
-					}
-					w.emit(SEvent{kind: "call", name: sel.Sel.Name, ops: ops})
-					return
-				}
-			}
-			if op, ok := w.dataOf(sel.X); ok {
-				// method of the unsafe set on an operand's map
-				for _, a := range x.Args {
-					w.expr(a, false)
-				}
-				w.emit(SEvent{kind: "access", ops: []string{op}, write: writerMethods[sel.Sel.Name]})
-				return
-			}
-		}
-		if id, ok := x.Fun.(*ast.Ident); ok {
-			if w.helpers[id.Name] {
-				var ops []string
-				for _, a := range x.Args {
-					op, ok := w.opOf(a)
-					if !ok {
-						w.fail(x.Pos(), "helper %s called with an unrecognised operand", id.Name)
-					}
-					ops = append(ops, op)
-				}
-				if w.depth > 0 {
-					w.fail(x.Pos(), "helper call %s inside a branch or loop", id.Name)
-				}
-				w.emit(SEvent{kind: "helper", name: id.Name, ops: ops})
-				return
-			}
-			if id.Name == "delete" && len(x.Args) >= 1 {
-				w.expr(x.Args[0], true)
-				for _, a := range x.Args[1:] {
-					w.expr(a, false)
-				}
-				return
-			}
-		}
-		w.expr(x.Fun, false)
-		for _, a := range x.Args {
-			w.expr(a, false)
-		}
-	case *ast.FuncLit:
-		w.block(x.Body.List)
-	case *ast.SelectorExpr:
-		w.expr(x.X, write)
-	case *ast.IndexExpr:
-		w.expr(x.X, write)
-		w.expr(x.Index, false)
-	case *ast.UnaryExpr:
-		w.expr(x.X, write)
-	case *ast.StarExpr:
-		w.expr(x.X, write)
-	case *ast.ParenExpr:
-		w.expr(x.X, write)
-	case *ast.BinaryExpr:
-		w.expr(x.X, false)
-		w.expr(x.Y, false)
-	case *ast.TypeAssertExpr:
-		w.expr(x.X, false)
-	case *ast.CompositeLit:
-		for _, el := range x.Elts {
-			if kv, ok := el.(*ast.KeyValueExpr); ok {
-				w.expr(kv.Value, false)
-			} else {
-				w.expr(el, false)
-			}
-		}
-	case *ast.KeyValueExpr:
-		w.expr(x.Value, false)
-	case *ast.SliceExpr:
-		w.expr(x.X, false)
-	}
-}
-
-func (w *methodWalker) block(stmts []ast.Stmt) {
-	for _, s := range stmts {
-		w.stmt(s)
-	}
-}
-
-func (w *methodWalker) stmt(s ast.Stmt) {
-	switch x := s.(type) {
-	case *ast.ExprStmt:
-		w.expr(x.X, false)
-	case *ast.AssignStmt:
-		for _, r := range x.Rhs {
-			w.expr(r, false)
-		}
-		for i, l := range x.Lhs {
-			// operand alias: o := other.(*threadSafeSet)
-			if id, ok := l.(*ast.Ident); ok && i < len(x.Rhs) {
-				if op, ok := w.opOf(x.Rhs[i]); ok {
-					w.operand[id.Name] = op
-					continue
-				}
-				if op, ok := w.dataOf(x.Rhs[i]); ok {
-					// a map value or pointer copies only the header: later uses touch the same data
-					w.alias[id.Name] = op
-					continue
-				}
-				delete(w.alias, id.Name)
-				continue
-			}
-			w.expr(l, true)
-		}
-	case *ast.DeclStmt:
-		if gd, ok := x.Decl.(*ast.GenDecl); ok {
-			for _, sp := range gd.Specs {
-				if vs, ok := sp.(*ast.ValueSpec); ok {
-					for i, v := range vs.Values {
-						w.expr(v, false)
-						if i < len(vs.Names) {
-							if op, ok := w.dataOf(v); ok {
-								w.alias[vs.Names[i].Name] = op
-							}
-						}
-					}
-				}
-			}
-		}
-	case *ast.ReturnStmt:
-		for _, r := range x.Results {
-			w.expr(r, false)
-		}
-	case *ast.DeferStmt:
-		saved := w.events
-		w.events = nil
-		w.expr(x.Call, false)
-		w.defers = append(w.defers, w.events)
-		w.events = saved
-	case *ast.GoStmt:
-		w.emit(SEvent{kind: "go-begin"})
-		if fl, ok := x.Call.Fun.(*ast.FuncLit); ok {
-			w.block(fl.Body.List)
-		} else {
-			w.expr(x.Call, false)
-		}
-		w.emit(SEvent{kind: "go-end"})
-	case *ast.RangeStmt:
-		w.expr(x.X, false)
-		w.depth++
-		w.block(x.Body.List)
-		w.depth--
-	case *ast.ForStmt:
-		w.depth++
-		if x.Init != nil {
-			w.stmt(x.Init)
-		}
-		w.expr(x.Cond, false)
-		w.block(x.Body.List)
-		if x.Post != nil {
-			w.stmt(x.Post)
-		}
-		w.depth--
-	case *ast.IfStmt:
-		if x.Init != nil {
-			w.stmt(x.Init)
-		}
-		w.expr(x.Cond, false)
-		w.depth++
-		w.block(x.Body.List)
-		if x.Else != nil {
-			w.stmt(x.Else)
-		}
-		w.depth--
-	case *ast.BlockStmt:
-		w.block(x.List)
-	case *ast.SwitchStmt:
-		if x.Init != nil {
-			w.stmt(x.Init)
-		}
-		w.expr(x.Tag, false)
-		w.depth++
-		for _, c := range x.Body.List {
-			if cc, ok := c.(*ast.CaseClause); ok {
-				w.block(cc.Body)
-			}
-		}
-		w.depth--
-	case *ast.SendStmt:
-		w.expr(x.Chan, false)
-		w.expr(x.Value, false)
-	case *ast.IncDecStmt:
-		w.expr(x.X, true)
-	}
-}
-
-type StaticMethod struct {
-	Name   string
-	Binary bool
-	Events []SEvent
-}
-
-func ExtractStatic(repo string) (map[string]*StaticMethod, error) {
-	fset := token.NewFileSet()
-	f, err := parser.ParseFile(fset, filepath.Join(repo, "utils/mapset/threadsafe.go"), nil, 0)
-	if err != nil {
-		return nil, err
-	}
-	methods := map[string]bool{}
-	helpers := map[string]bool{}
-	for _, d := range f.Decls {
-		fd, ok := d.(*ast.FuncDecl)
-		if !ok {
-			continue
-		}
-		if fd.Recv != nil && len(fd.Recv.List) == 1 {
-			if se, ok := fd.Recv.List[0].Type.(*ast.StarExpr); ok {
-				if id, ok := se.X.(*ast.Ident); ok && id.Name == "threadSafeSet" {
-					methods[fd.Name.Name] = true
-				}
-			}
-		} else if fd.Recv == nil && fd.Type.Params != nil {
-			// helper: every parameter is a *threadSafeSet
-			n, all := 0, true
-			for _, p := range fd.Type.Params.List {
-				se, ok := p.Type.(*ast.StarExpr)
-				id, ok2 := ast.Expr(nil), false
-				if ok {
-					id, ok2 = se.X.(*ast.Ident)
-				}
-				if !ok || !ok2 || id.(*ast.Ident).Name != "threadSafeSet" {
-					all = false
-				}
-				n += len(p.Names)
-			}
-			if all && n == 2 {
-				helpers[fd.Name.Name] = true
-			}
-		}
-	}
-	out := map[string]*StaticMethod{}
-	for _, d := range f.Decls {
-		fd, ok := d.(*ast.FuncDecl)
-		if !ok || fd.Recv == nil || !methods[fd.Name.Name] || lockMethods[fd.Name.Name] {
-			continue
-		}
-		w := &methodWalker{operand: map[string]string{}, alias: map[string]string{}, methods: methods, helpers: helpers}
-		if len(fd.Recv.List[0].Names) == 1 {
-			w.recv = fd.Recv.List[0].Names[0].Name
-			w.operand[w.recv] = "recv"
-		}
-		binary := false
-		for _, p := range fd.Type.Params.List {
-			if id, ok := p.Type.(*ast.Ident); ok && id.Name == "Set" {
-				for _, n := range p.Names {
-					w.operand[n.Name] = "arg"
-					binary = true
-				}
-			}
-		}
-		w.block(fd.Body.List)
-		for i := len(w.defers) - 1; i >= 0; i-- {
-			w.events = append(w.events, w.defers[i]...)
-		}
-		if w.err != nil {
-			return nil, fmt.Errorf("%s: %v", fd.Name.Name, w.err)
-		}
-		out[fd.Name.Name] = &StaticMethod{Name: fd.Name.Name, Binary: binary, Events: w.events}
-	}
-	return out, nil
-}
 
 // ---------------------------------------------------------------------------------
 // dynamic part: lock-event traces recorded through the verif hook
@@ -414,10 +58,13 @@ func RecordTrace(method string, pattern string) ([]DEvent, error) {
 		lo, hi = y, x
 	}
 	idOf := func(s any) int {
-		if reflect.ValueOf(s).Pointer() == reflect.ValueOf(lo).Pointer() {
+		switch reflect.ValueOf(s).Pointer() {
+		case reflect.ValueOf(lo).Pointer():
 			return 0
+		case reflect.ValueOf(hi).Pointer():
+			return 1
 		}
-		return 1
+		return -1 // a set created inside the operation: nobody else can see it
 	}
 	var recv, arg mapset.Set
 	switch pattern {
@@ -436,9 +83,11 @@ func RecordTrace(method string, pattern string) ([]DEvent, error) {
 		if phase != 1 {
 			return
 		}
-		mu.Lock()
-		trace = append(trace, DEvent{op, idOf(set)})
-		mu.Unlock()
+		if id := idOf(set); id >= 0 {
+			mu.Lock()
+			trace = append(trace, DEvent{op, id})
+			mu.Unlock()
+		}
 	}
 	defer func() { mapset.VerifLockHook = nil }()
 	m := reflect.ValueOf(recv).MethodByName(method)
@@ -504,67 +153,6 @@ func (a Act) Token() string {
 
 var dynKind = map[string]string{"RLock": "rlock", "RUnlock": "runlock", "Lock": "wlock", "Unlock": "unlock"}
 
-type aligner struct {
-	static map[string]*StaticMethod
-	trace  []DEvent
-	pos    int
-	out    []Act
-}
-
-func (al *aligner) run(method string, lockOf map[string]int, depth int) error {
-	if depth > 4 {
-		return fmt.Errorf("nested calls deeper than 4")
-	}
-	sm, ok := al.static[method]
-	if !ok {
-		return fmt.Errorf("no static extraction for method %s", method)
-	}
-	for _, e := range sm.Events {
-		switch e.kind {
-		case "access":
-			al.out = append(al.out, Act{"access", lockOf[e.ops[0]], e.write})
-		case "lock":
-			if al.pos >= len(al.trace) || al.trace[al.pos].Op != e.name || al.trace[al.pos].Set != lockOf[e.ops[0]] {
-				return fmt.Errorf("%s: source has %s on %s here but the recorded trace continues with %v", method, e.name, e.ops[0], al.trace[al.pos:])
-			}
-			al.out = append(al.out, Act{dynKind[e.name], al.trace[al.pos].Set, false})
-			al.pos++
-		case "helper":
-			// a helper acquires / releases each distinct operand once; take what was recorded
-			want := ""
-			n := 0
-			distinct := map[int]bool{}
-			for _, o := range e.ops {
-				distinct[lockOf[o]] = true
-			}
-			for al.pos < len(al.trace) && n < len(distinct)+1 {
-				t := al.trace[al.pos]
-				if want == "" {
-					want = t.Op
-				}
-				if t.Op != want || !distinct[t.Set] || (want != "RLock" && want != "RUnlock" && want != "Lock" && want != "Unlock") {
-					break
-				}
-				al.out = append(al.out, Act{dynKind[t.Op], t.Set, false})
-				al.pos++
-				n++
-			}
-			if n == 0 {
-				return fmt.Errorf("%s: helper %s recorded no lock event", method, e.name)
-			}
-		case "call":
-			sub := map[string]int{"recv": lockOf[e.ops[0]]}
-			if len(e.ops) > 1 {
-				sub["arg"] = lockOf[e.ops[1]]
-			}
-			if err := al.run(e.name, sub, depth+1); err != nil {
-				return err
-			}
-		}
-	}
-	return nil
-}
-
 // Entry is one operation under one operand assignment.
 type Entry struct {
 	Op, Pattern string
@@ -584,36 +172,138 @@ func LockOf(pattern string) map[string]int {
 	return map[string]int{"recv": 0, "arg": 1}
 }
 
-// All records every operation under every operand assignment over two sets and aligns it with the source.
-func All(repo string) (map[string]*StaticMethod, []Entry, error) {
-	static, err := ExtractStatic(repo)
+// OpNames lists the operations of the Set interface of the RUNNING code (reflection), with whether
+// they take another set.
+func OpNames() (names []string, binary map[string]bool) {
+	t := reflect.TypeOf((*mapset.Set)(nil)).Elem()
+	binary = map[string]bool{}
+	for i := 0; i < t.NumMethod(); i++ {
+		m := t.Method(i)
+		names = append(names, m.Name)
+		for k := 0; k < m.Type.NumIn(); k++ {
+			if m.Type.In(k) == t {
+				binary[m.Name] = true
+			}
+		}
+	}
+	sort.Strings(names)
+	return
+}
+
+func patternsOf(binary bool) []string {
+	if binary {
+		return []string{"AB", "BA", "AA"}
+	}
+	return []string{"A", "B"}
+}
+
+// Skeletons records the lock events of every operation under every operand assignment over two
+// sets from the running code alone (no source involved).
+func Skeletons() ([]Entry, error) {
+	names, binary := OpNames()
+	var out []Entry
+	for _, n := range names {
+		for _, p := range patternsOf(binary[n]) {
+			tr, err := RecordTrace(n, p)
+			if err != nil {
+				return nil, err
+			}
+			acts := make([]Act, len(tr))
+			for i, t := range tr {
+				acts[i] = Act{dynKind[t.Op], t.Set, false}
+			}
+			out = append(out, Entry{n, p, acts})
+		}
+	}
+	return out, nil
+}
+
+func pathString(p []SEvent) string {
+	parts := make([]string, len(p))
+	for i, e := range p {
+		parts[i] = e.String()
+	}
+	return strings.Join(parts, " ")
+}
+
+// All walks the source of every operation (see absint.go), records every operation under every
+// operand assignment over two sets, and keeps the source paths whose lock calls are exactly the
+// recorded lock events: the result interleaves the recorded lock events with the accesses to the
+// sets' maps found in the source. Several entries for one (operation, assignment) mean that several
+// source paths fit the recorded events; each of them is kept.
+func All(repo string) (map[string]string, []Entry, error) {
+	in, err := LoadMapset(repo)
 	if err != nil {
 		return nil, nil, err
 	}
-	names := make([]string, 0, len(static))
-	for n := range static {
-		names = append(names, n)
+	srcNames, srcBinary, err := in.Ops()
+	if err != nil {
+		return nil, nil, err
 	}
-	sort.Strings(names)
+	names, binary := OpNames()
+	if strings.Join(srcNames, ",") != strings.Join(names, ",") {
+		return nil, nil, fmt.Errorf("the Set interface has operations %v in the source, %v in the running code", srcNames, names)
+	}
+	static := map[string]string{}
 	var out []Entry
 	for _, n := range names {
-		patterns := []string{"A", "B"}
-		if static[n].Binary {
-			patterns = []string{"AB", "BA", "AA"}
+		if binary[n] != srcBinary[n] {
+			return nil, nil, fmt.Errorf("%s: source and running code disagree on whether it takes another set", n)
 		}
-		for _, p := range patterns {
+		for _, p := range patternsOf(binary[n]) {
 			tr, err := RecordTrace(n, p)
 			if err != nil {
 				return nil, nil, err
 			}
-			al := &aligner{static: static, trace: tr}
-			if err := al.run(n, LockOf(p), 0); err != nil {
-				return nil, nil, fmt.Errorf("aligning %s(%s): %v", n, p, err)
+			paths, err := in.Paths(n, p == "AA")
+			if err != nil {
+				return nil, nil, fmt.Errorf("walking %s(%s): %v", n, p, err)
 			}
-			if al.pos != len(tr) {
-				return nil, nil, fmt.Errorf("aligning %s(%s): %d recorded lock events have no counterpart in the source: %v", n, p, len(tr)-al.pos, tr[al.pos:])
+			lockOf := LockOf(p)
+			seen := map[string]bool{}
+			var closest string
+			matched := 0
+			for _, path := range paths {
+				var acts []Act
+				k, ok := 0, true
+				for _, e := range path {
+					switch e.kind {
+					case "access":
+						acts = append(acts, Act{"access", lockOf[e.ops[0]], e.write})
+					case "lock":
+						id := lockOf[e.ops[0]]
+						if k >= len(tr) || tr[k].Op != e.name || tr[k].Set != id {
+							ok = false
+						} else {
+							acts = append(acts, Act{dynKind[e.name], id, false})
+						}
+						k++
+					}
+				}
+				if !ok || k != len(tr) {
+					if closest == "" {
+						closest = pathString(path)
+					}
+					continue
+				}
+				matched++
+				parts := make([]string, len(acts))
+				for i, a := range acts {
+					parts[i] = a.Token()
+				}
+				key := strings.Join(parts, ",")
+				if !seen[key] {
+					seen[key] = true
+					out = append(out, Entry{n, p, acts})
+					if static[n+":"+p] != "" {
+						static[n+":"+p] += " | "
+					}
+					static[n+":"+p] += pathString(path)
+				}
 			}
-			out = append(out, Entry{n, p, al.out})
+			if matched == 0 {
+				return nil, nil, fmt.Errorf("aligning %s(%s): none of the %d source paths makes the recorded lock events %v; e.g. the source path [%s]", n, p, len(paths), tr, closest)
+			}
 		}
 	}
 	return static, out, nil
